@@ -1,4 +1,5 @@
 import XdsVerif.Proofs.Seq
+import XdsVerif.Proofs.Sweep
 import XdsVerif.Properties.C01
 /-!
 # C19 — idle resources are evicted and unsubscribed; used and reserved ones stay
@@ -147,6 +148,68 @@ theorem evicted_stays_out (cfg : Cfg) (s s1 s2 : St) (rt : RType) (n : Name) (t 
   subst hrt
   exact unsubscribed_update_ignored cfg s1 s2 r now n (by simp [h3]) h1 hp
 
+/-! ## the whole tick, in any visiting order -/
+open XdsVerif.Sweep in
+/-- the cleaner's condition, as the property words it -/
+theorem expired_iff (s : St) (rt : RType) (n : Name) (now : Nat) :
+    expiredB s rt n now = true ↔
+      ∃ t, s.acc rt n = some (some t) ∧ now - t > 30 ∧ ¬ (rt = .lds ∧ n = "virtualInbound") := by
+  unfold expiredB
+  cases h : s.acc rt n with
+  | none => simp
+  | some a =>
+    cases a with
+    | none => simp
+    | some t =>
+      simp only [expire, reserved, Bool.and_eq_true, decide_eq_true_eq, Bool.not_eq_true', decide_eq_false_iff_not,
+        Option.some.injEq, exists_eq_left']
+      constructor
+      · rintro ⟨h1, h2⟩
+        exact ⟨of_decide_eq_true h1, of_decide_eq_false h2⟩
+      · rintro ⟨h1, h2⟩
+        exact ⟨decide_eq_true h1, decide_eq_false h2⟩
+
+open XdsVerif.Sweep in
+/-- **one tick of the cleaner, whatever order the map iteration visits the entries in**: every visited entry that has
+been idle for longer than the period (and is not the reserved listener) is removed from the cache, withdrawn from the
+interest set, and a request of its type without it is enqueued; every other entry keeps its value and its subscription -/
+theorem sweep_exact (cfg : Cfg) (now : Nat) (s : St) (es : List (RType × Name)) (hq : s.closed = false) :
+    (∀ rt n, (rt, n) ∈ es →
+        (∃ t, s.acc rt n = some (some t) ∧ now - t > 30 ∧ ¬ (rt = .lds ∧ n = "virtualInbound")) →
+        (sweep cfg now s es).cache rt n = none ∧ n ∉ ((sweep cfg now s es).watched rt).getD [] ∧
+        ∃ qs, (sweep cfg now s es).queue = s.queue ++ qs ∧ ∃ q ∈ qs, q.rt = rt ∧ n ∉ q.names) ∧
+    (∀ rt n, ¬ (∃ t, s.acc rt n = some (some t) ∧ now - t > 30 ∧ ¬ (rt = .lds ∧ n = "virtualInbound")) →
+        (sweep cfg now s es).cache rt n = s.cache rt n ∧
+        (n ∈ (s.watched rt).getD [] → n ∈ ((sweep cfg now s es).watched rt).getD [])) := by
+  constructor
+  · intro rt n hm hex
+    have hg : gone s es now rt n = true := by
+      simp [gone, hm, (expired_iff s rt n now).mpr hex]
+    refine ⟨by rw [sweep_cache cfg now es s hq, hg]; rfl, ?_, ?_⟩
+    · rw [sweep_watched cfg now es s hq]
+      simp [hg]
+    · obtain ⟨qs, h1, h2⟩ := sweep_requests cfg now es s hq
+      exact ⟨qs, h1, h2 rt n hg⟩
+  · intro rt n hne
+    have hg : gone s es now rt n = false := by
+      have : expiredB s rt n now = false := by
+        cases h : expiredB s rt n now with
+        | false => rfl
+        | true => exact absurd ((expired_iff s rt n now).mp h) hne
+      simp [gone, this]
+    refine ⟨by rw [sweep_cache cfg now es s hq, hg]; rfl, ?_⟩
+    intro hin
+    rw [sweep_watched cfg now es s hq]
+    simp [hin, hg]
+
+open XdsVerif.Sweep in
+/-- the outcome of a tick does not depend on the iteration order of `m.meta` -/
+theorem sweep_any_order (cfg : Cfg) (now : Nat) (s : St) (hq : s.closed = false)
+    (es es' : List (RType × Name)) (hp : ∀ e, e ∈ es ↔ e ∈ es') :
+    (∀ rt n, (sweep cfg now s es).cache rt n = (sweep cfg now s es').cache rt n) ∧
+    (∀ rt, ((sweep cfg now s es).watched rt).getD [] = ((sweep cfg now s es').watched rt).getD []) :=
+  ⟨(sweep_order_independent cfg now s hq es es' hp).1, (sweep_order_independent cfg now s hq es es' hp).2.2⟩
+
 /-! non-vacuity -/
 example : ((run C01.exCfg init (C01.exOps ++ [.touch .lds "echo:8888" 100, .evict .lds "echo:8888" 131, .senderSend false])).map
     (fun s => (s.cache .lds "echo:8888", s.watched .lds, (s.wire.getLast?).map (fun kq => kq.2.names))))
@@ -156,5 +219,12 @@ example : (run C01.exCfg init (C01.exOps ++ [.touch .lds "echo:8888" 100, .evict
 example : ((run C01.exCfg init (C01.exOps ++ [.touch .lds "echo:8888" 100, .evict .lds "echo:8888" 131, .senderSend false,
       .push { rt := .lds, version := "2", nonce := "c", slots := [.good "10.0.0.1_8888" "L2"] } 131])).map
     (fun s => (s.cache .lds "echo:8888", s.version .lds, s.watched .lds))) = some (none, "2", some []) := by decide
+/-- a tick over two listeners and the reserved one, in two orders: the idle one goes, the fresh and the reserved one stay -/
+example :
+    let s := (run C01.exCfg init (C01.exOps ++ [.touch .lds "echo:8888" 100])).getD init
+    ((Sweep.sweep C01.exCfg 131 s [(.lds, "virtualInbound"), (.lds, "echo:8888")]).cache .lds "echo:8888",
+     (Sweep.sweep C01.exCfg 131 s [(.lds, "echo:8888"), (.lds, "virtualInbound"), (.lds, "echo:8888")]).watched .lds,
+     (Sweep.sweep C01.exCfg 130 s [(.lds, "echo:8888")]).cache .lds "echo:8888")
+      = (none, some [], some "L1") := by decide
 
 end XdsVerif.Properties.C19
